@@ -173,6 +173,8 @@ def concrete_for(ex, node, items, fr, spec, ordinal):
         k = ex.choose(n, tag=f"loop{ordinal}.iteration") if n else None
         if k is None:
             raise PathEnd()
+        if k >= n:
+            raise Unsupported("re-execution diverged: the iterated sequence changed between paths (shared state?)")
         fr.env.vars.update(make_state(ex, _inv_env(fr, {}), k))
         ex.check(f"loop{ordinal}.state_satisfies_inv", eval_clause(ex, inv, _inv_env(fr, {"_i": k, "_n": n})))
         ex.assign(node.target, items[k], fr)
